@@ -10,7 +10,7 @@ pub fn def() -> PropDef {
     PropDef {
         id: "C02",
         level: "exploration",
-        rule: "seq: generated histories (<= 60 ops over add, delete_term(uid|group), delete_query(range|boolean), run(batch), delete_all, commit, prepare+payload+commit, prepare+abort, rollback, merge(subset), wait_merging_threads, drop+reopen writer, reopen Index, gc) x configuration (1..8 threads, flush-every-N hook, merge policy, sorted/unsorted, Ram/Mmap/Sim directory), executed against tantivy and a pure sequential model; after EVERY commit/abort/rollback/merge/reopen a fresh searcher must equal the model (every uid once; stored, fast and inverted fields intact) and the opstamp laws must hold. Non-trivial = the history has a delete hitting a document added in the same transaction, or a rollback/abort after uncommitted work, or >= 2 commits with a merge between them, or >= 2 threads producing >= 2 segments in one transaction; distinct by hash(history, cfg). producers: 2-4 threads share &IndexWriter with disjoint uid/group spaces, each producer's final content must equal the sequential replay of its own program. shared_keys: 2-4 producers add to and delete by the SAME three group terms (single calls and run() batches, incl. delete-then-add upserts), held at the stamped/before-send pause points; intervals on a logical clock; the committed content must satisfy the necessary conditions of linearizability per key (a document whose add returned before a delete was called is gone; a missing document has a delete not entirely before its add; no survivor precedes a dead document of the same key), opstamps unique and ordered like real time, batch opstamps contiguous. late_delete: rounds of (a few adds cut into several segments under an aggressive merge policy, prepare_commit + commit_future, a delete_term stamped while the commit is still queued behind merge bookkeeping, wait), then wait_merging_threads: the delete belongs to the NEXT transaction, so the document stays visible until the next commit whatever merge was scheduled in between; non-trivial = a late delete hit a live document while >= 2 segments were uncommitted.",
+        rule: "seq: generated histories (<= 60 ops over add, delete_term(uid|group), delete_query(range|boolean), run(batch), delete_all, commit, prepare+payload+commit, prepare+abort, rollback, merge(subset), wait_merging_threads, drop+reopen writer, reopen Index, gc) x configuration (1..8 threads, flush-every-N hook, merge policy, sorted/unsorted, Ram/Mmap/Sim directory), executed against tantivy and a pure sequential model; after EVERY commit/abort/rollback/merge/reopen a fresh searcher must equal the model (every uid once; stored, fast and inverted fields intact) and the opstamp laws must hold. Non-trivial = the history has a delete hitting a document added in the same transaction, or a rollback/abort after uncommitted work, or >= 2 commits with a merge between them, or >= 2 threads producing >= 2 segments in one transaction; distinct by hash(history, cfg). producers: 2-4 threads share &IndexWriter with disjoint uid/group spaces, each producer's final content must equal the sequential replay of its own program. shared_keys: 2-4 producers add to and delete by the SAME three group terms (single calls and run() batches, incl. delete-then-add upserts), held at the stamped/before-send pause points; intervals on a logical clock; the committed content must satisfy the necessary conditions of linearizability per key (a document whose add returned before a delete was called is gone; a missing document has a delete not entirely before its add; no survivor precedes a dead document of the same key), opstamps unique and ordered like real time, batch opstamps contiguous. late_delete: rounds of (a few adds cut into several segments under an aggressive merge policy, prepare_commit + commit_future, a delete_term stamped while the commit is still queued behind merge bookkeeping, wait), then wait_merging_threads: the delete belongs to the NEXT transaction, so the document stays visible until the next commit whatever merge was scheduled in between; non-trivial = a late delete hit a live document while >= 2 segments were uncommitted. late_push: a delete_term is held between drawing its opstamp and entering the delete queue (pause point) while another thread adds documents of the same term, which are cut into their own segments; after the commit the documents stamped after the delete are alive, those stamped before it are gone.",
         assumptions: vec![
             "worker / updater / merge thread interleavings are those the OS produces, steered by the flush-every-N hook; the verdict never depends on them",
             "documents: uid (u64 fast+indexed+stored), group (raw string), body (text), num (i64 fast+indexed+stored)",
